@@ -159,3 +159,150 @@ func TestVerifC02Establisher(t *testing.T) {
 		runCase(rec, ec.build, ec.Place, genVisibility().Draw(t, "reads"), 2, func() any { return ec }, tfail(t))
 	})
 }
+
+// ---------------------------------------------------------------------------
+// establisher/release: APIEstablisher.ReleaseObjects of a revision that has been
+// deactivated. Its status.objectRefs still names the package's objects; after an
+// upgrade (or an adoption) one of them is controlled by a different UID.
+
+// releaseNormalizer implements the one exemption the property states: "the plain
+// (non-controller) owner reference an inactive package revision adds" is out of
+// scope. Objects are compared without plain references to the acting revision and
+// without the bookkeeping an update of ownerReferences necessarily touches
+// (resourceVersion, managedFields). Everything else - in particular every other
+// owner reference and its controller flag - still has to be identical.
+func releaseNormalizer(actingUID string) func(o verifsim.Obj) verifsim.Obj {
+	return func(o verifsim.Obj) verifsim.Obj {
+		c := verifsim.DeepCopy(o)
+		m := verifsim.Meta(c)
+		delete(m, "resourceVersion")
+		delete(m, "managedFields")
+		var keep []any
+		for _, r := range verifsim.OwnerRefs(c) {
+			ctrl, _ := r["controller"].(bool)
+			if u, _ := r["uid"].(string); u == actingUID && !ctrl {
+				continue
+			}
+			keep = append(keep, r)
+		}
+		if len(keep) == 0 {
+			delete(m, "ownerReferences")
+		} else {
+			m["ownerReferences"] = keep
+		}
+		return c
+	}
+}
+
+func (ec estCase) buildRelease(p placement) (*world, expectation) {
+	sim := verifsim.New(verifsim.NewScheme())
+	rec := verifenv.NewRecorder()
+	ctx := context.Background()
+	pkgKind, revKind := "Configuration", "ConfigurationRevision"
+	if ec.Provider {
+		pkgKind, revKind = "Provider", "ProviderRevision"
+	}
+	mkPkg := func(n string) verifsim.Obj {
+		return mustCreate(sim, verifsim.Obj{"apiVersion": "pkg.crossplane.io/v1", "kind": pkgKind, "metadata": map[string]any{"name": n}, "spec": map[string]any{"package": "xpkg.example.org/acme/" + n + ":v2"}})
+	}
+	mkRev := func(pk verifsim.Obj, n, state string, rev int64) verifsim.Obj {
+		return mustCreate(sim, verifsim.Obj{"apiVersion": "pkg.crossplane.io/v1", "kind": revKind,
+			"metadata": map[string]any{"name": n, "labels": map[string]any{pkgv1.LabelParentPackage: verifsim.MetaString(pk, "name")}, "ownerReferences": []any{refTo(pk, true)}},
+			"spec":     map[string]any{"desiredState": state, "image": "xpkg.example.org/acme/x:v2", "revision": rev}})
+	}
+	pk := mkPkg("acme")
+	// The acting owner: the OLD revision, now inactive, releasing what it installed.
+	acting := mkRev(pk, "acme-ba9876543210", "Inactive", 1)
+	successor := mkRev(pk, "acme-0123456789ab", "Active", 2)
+	stranger := mkRev(mkPkg("stranger"), "stranger-0123456789ab", "Active", 1)
+	var foreignRef map[string]any
+	switch ec.Foreigner {
+	case "sibling":
+		foreignRef = refTo(successor, true)
+	case "stranger":
+		foreignRef = refTo(stranger, true)
+	default:
+		foreignRef = ownerRef("pkg.crossplane.io/v1", revKind, "acme-000000000000", "uid-of-a-former-revision", true)
+	}
+	objs := ec.objects()
+	var refs []any
+	var tk verifsim.Key
+	for i, o := range objs {
+		m := toObj(o, sim)
+		refs = append(refs, map[string]any{"apiVersion": m["apiVersion"], "kind": m["kind"], "name": verifsim.MetaString(m, "name")})
+		pl := own // the other objects are still the acting revision's: they are released as usual
+		if i == ec.Target%len(objs) {
+			pl = p
+			tk = verifsim.KeyOf(m)
+		}
+		setController(m, pl, refTo(acting, true), foreignRef)
+		if ec.PlainRefs {
+			mm := verifsim.Meta(m)
+			l, _ := mm["ownerReferences"].([]any)
+			mm["ownerReferences"] = append(l, refTo(pk, false))
+		}
+		mustCreate(sim, m)
+	}
+	// status.objectRefs as the revision reconciler records Establish's result.
+	u := verifsim.U(acting)
+	u.Object["status"] = map[string]any{"objectRefs": refs}
+	if err := sim.Client(envActor).Status().Update(ctx, u); err != nil {
+		panic(err)
+	}
+	actingUID := verifsim.MetaString(acting, "uid")
+	w := &world{sim: sim, rec: rec, ownerKey: verifsim.KeyOf(acting), ownerUID: actingUID}
+	if p == foreign || p == foreignExtraPlain {
+		// The acting revision has no reference of its own on the object: it may add its plain one (out of scope).
+		w.normalize = releaseNormalizer(actingUID)
+	}
+	w.step = func(c client.Client, _ int) error {
+		var parent pkgv1.PackageRevision = &pkgv1.ConfigurationRevision{}
+		if ec.Provider {
+			parent = &pkgv1.ProviderRevision{}
+		}
+		if err := w.live.Get(ctx, client.ObjectKey{Name: "acme-ba9876543210"}, parent); err != nil {
+			return err
+		}
+		return revision.NewAPIEstablisher(c, sysNS, ec.Workers).ReleaseObjects(ctx, parent)
+	}
+	e := expectation{site: "establisher/release/" + revKind, kind: tk.Kind + "/owner=" + ec.Foreigner, place: p, target: tk, mustWrite: true, noController: true}
+	// Releasing never fails on an object somebody else controls, it leaves it alone: nothing to surface.
+	e.surface = false
+	e.extra = func(w *world, fail func(string, ...any)) {
+		if got, want := verifsim.ControllerUID(w.sim.Get(tk)), fmt.Sprint(foreignRef["uid"]); got != want {
+			fail("the object's controller was %s before the release and is %q after it", want, got)
+		}
+	}
+	e.afterOwn = func(w *world, fail func(string, ...any)) {
+		cur := w.sim.Get(tk)
+		if c := verifsim.ControllerUID(cur); c != "" {
+			fail("VACUOUS: the acting revision's own object was not released, controller is still %q", c)
+		}
+		kept := false
+		for _, r := range verifsim.OwnerRefs(cur) {
+			if r["uid"] == actingUID {
+				kept = true
+			}
+		}
+		if !kept {
+			fail("the released object lost the acting revision's owner reference")
+		}
+	}
+	return w, e
+}
+
+func TestVerifC02EstablisherRelease(t *testing.T) {
+	rec := verifkit.New(t, "C02", "revision.APIEstablisher.ReleaseObjects of a deactivated revision whose status.objectRefs names an object that another UID (the successor revision, a stranger's revision, a vanished owner) now controls, with and without the acting revision's own plain reference on it")
+	rapid.Check(t, func(t *rapid.T) {
+		ec := estCase{
+			Provider:  rapid.Bool().Draw(t, "provider"),
+			NObjs:     rapid.IntRange(1, 4).Draw(t, "nObjs"),
+			Target:    rapid.IntRange(0, 3).Draw(t, "target"),
+			Foreigner: rapid.SampledFrom([]string{"sibling", "sibling", "stranger", "ghost"}).Draw(t, "foreigner"),
+			PlainRefs: rapid.Bool().Draw(t, "plainRefs"),
+			Workers:   rapid.IntRange(1, 4).Draw(t, "workers"),
+			Place:     rapid.SampledFrom(placements).Draw(t, "placement"),
+		}
+		runCase(rec, ec.buildRelease, ec.Place, genVisibility().Draw(t, "reads"), 2, func() any { return ec }, tfail(t))
+	})
+}
